@@ -1630,3 +1630,22 @@ Check C04_push_tab_dotdot_witness :
   /\ Setters.path_segments_session true C04_CostPathDD.w_tab_url [Setters.PPush [46; 46]] = Some (C04_CostPathDD.w_tab_url, Setters.SOk)
   /\ C04_CostPathUp.dd_count true CPathSegmentSetter STSpecialNotFile 8 [46; 9; 46] [104;116;116;112;58;47;47;104;47;97;47;98;47] 13 [] true = 1.
 Print Assumptions C04_push_tab_dotdot_witness.
+
+(* C04_reached_premises for the LARGEST reachability relation of the development: CReach3 (Proofs/C05_CompSteps3.v) =
+   parse, join and all 19 mutators - the Url setters, path_segments_mut sessions, query_pairs_mut sessions and the
+   quirks setters - each step outside the known classes (step_gate3: the frame hypotheses behind F-C02-2 / -4 / -8,
+   F-C03-5, F-C06-5, stated on the pair of records).  Every such record satisfies wf_b and wfh, hence is a legal
+   receiver of C04_no_panic_accessors / _setters / _setters2 / _quirks and of the rows of C04_no_panic_inventory that
+   have these premises.  Hypotheses on the host functions: HostWf and IpDisp (Display writes an address as a non-empty
+   text that does not start with ':' / '@'); C09 proves both of the host model. *)
+Theorem C04_reached_premises_all : forall hp hpo hd, C03_ReachParts.HostWf hp hpo hd -> C05_CompSteps3.IpDisp hd ->
+  forall dbg u, C05_CompSteps3.CReach3 dbg hp hpo hd u -> wf_b u = true /\ C06_Main.wfh u.
+Proof. exact C04_Chain.creach3_wf. Qed.
+Check C04_reached_premises_all : forall hp hpo hd, C03_ReachParts.HostWf hp hpo hd -> C05_CompSteps3.IpDisp hd ->
+  forall dbg u, C05_CompSteps3.CReach3 dbg hp hpo hd u -> wf_b u = true /\ C06_Main.wfh u.
+Print Assumptions C04_reached_premises_all.
+
+From RU Require Proofs.C05_FinEx.
+(* the hypotheses of C04_reached_premises_all have an instance, and a history through a quirks host setter exists in it *)
+Example C04_reached_all_inhabited : C05_FinEx.fin_example_stmt.
+Proof. exact C05_FinEx.fin_example. Qed.
